@@ -1,9 +1,303 @@
-(* C08 — property theorems only.  Proofs are in C08/Proofs.v. *)
-From Coq Require Import List NArith ZArith Bool.
-From DV Require Import C09.Values C09.Model C08.Model.
+(* C08 — property theorems only.  Proofs are in C08/Proofs.v.
+   pos / nam : the positional and the named dispatch of the built-in functions (C08/Model.v) on the current code,
+   pos_orig / nam_orig : at the pinned commit; Some v = the value, None = the evaluation traps;
+   to_int c e = Some p : the number c * 10^e is the integer p (any scale: 1.0 is 1);
+   spec_index n p : the 0-based index that position p denotes in a sequence of length n (1..n from the start, -1..-n from the end);
+   fits n : n <= 2^64 - 1 (the length of a list that exists in memory);  teq : C09's equality. *)
+From Coq Require Import List NArith ZArith Bool Arith Permutation.
+From DV Require Import C09.Values C09.Model C08.Model C08.Proofs.
 Import ListNotations.
 Open Scope Z_scope.
 
-Example C08_nonvacuous : pos Sublist [VList [VNum 1 0; VNum 2 0; VNum 3 0]; VNum (-2) 0; VNum 10 (-1)] = Some (VList [VNum 2 0]).
-Proof. vm_compute. reflexivity. Qed.
+Theorem C08_position_scale :
+  forall p j, 0 <= j -> to_int (p * 10 ^ j) (- j) = Some p.
+Proof. exact to_int_scale. Qed.
+Theorem C08_sublist2 :
+  forall xs c e p, fits (zlen xs) -> to_int c e = Some p ->
+  pos Sublist [VList xs; VNum c e] =
+  Some (match spec_index (zlen xs) p with Some i => VList (skipn (Z.to_nat i) xs) | None => VNull end).
+Proof. exact sublist2_spec. Qed.
+Theorem C08_sublist2_non_integer :
+  forall xs c e, to_int c e = None -> pos Sublist [VList xs; VNum c e] = Some VNull.
+Proof. exact sublist2_nonint. Qed.
+Theorem C08_sublist3 :
+  forall xs c e p lc le k, fits (zlen xs) -> to_int c e = Some p -> to_int lc le = Some k ->
+  pos Sublist [VList xs; VNum c e; VNum lc le] =
+  Some (match spec_index (zlen xs) p with
+        | Some i => if (0 <=? k) && (i + k <=? zlen xs) then VList (firstn (Z.to_nat k) (skipn (Z.to_nat i) xs)) else VNull
+        | None => VNull end).
+Proof. exact sublist3_spec. Qed.
+Theorem C08_remove :
+  forall xs c e p, fits (zlen xs) -> to_int c e = Some p ->
+  pos Remove [VList xs; VNum c e] =
+  Some (match spec_index (zlen xs) p with Some i => VList (remove_at (Z.to_nat i) xs) | None => VNull end).
+Proof. exact remove_spec. Qed.
+Theorem C08_remove_non_integer :
+  forall xs c e, to_int c e = None -> pos Remove [VList xs; VNum c e] = Some VNull.
+Proof. exact remove_nonint. Qed.
+Theorem C08_remove_at_length :
+  forall A (l : list A) i, (i < length l)%nat -> length (remove_at i l) = (length l - 1)%nat.
+Proof. exact remove_at_length. Qed.
+Theorem C08_remove_at_nth :
+  forall A (l : list A) i j d, (i < length l)%nat ->
+  nth j (remove_at i l) d = if (j <? i)%nat then nth j l d else nth (S j) l d.
+Proof. exact remove_at_nth. Qed.
+Theorem C08_insert_before :
+  forall xs c e p x, fits (zlen xs) -> to_int c e = Some p ->
+  pos InsertBefore [VList xs; VNum c e; x] =
+  Some (match spec_index (zlen xs) p with Some i => VList (insert_at (Z.to_nat i) x xs) | None => VNull end).
+Proof. exact insert_before_spec. Qed.
+Theorem C08_insert_at_length :
+  forall A (l : list A) i x, length (insert_at i x l) = S (length l).
+Proof. exact insert_at_length. Qed.
+Theorem C08_insert_at_nth :
+  forall A (l : list A) i j x d, (i <= length l)%nat ->
+  nth j (insert_at i x l) d = if (j <? i)%nat then nth j l d else if (j =? i)%nat then x else nth (j - 1) l d.
+Proof. exact insert_at_nth. Qed.
+Theorem C08_substring2 :
+  forall cs p, zlen cs <= I64MAX -> I64MIN <= p <= I64MAX ->
+  pos Substring [VStr cs; VNum p 0] =
+  Some (match spec_index (zlen cs) p with Some i => VStr (skipn (Z.to_nat i) cs) | None => VNull end).
+Proof. exact substring2_spec. Qed.
+Theorem C08_substring3 :
+  forall cs p k, zlen cs <= I64MAX -> I64MIN <= p <= I64MAX ->
+  pos Substring [VStr cs; VNum p 0; VNum k 0] =
+  Some (match spec_index (zlen cs) p with
+        | Some i => if (1 <=? k) && (i + k <=? zlen cs) then VStr (firstn (Z.to_nat k) (skipn (Z.to_nat i) cs)) else VNull
+        | None => VNull end).
+Proof. exact substring3_spec. Qed.
+Theorem C08_substring_non_integer :
+  forall cs c e len, to_int c e = None -> b_substring to_int (VStr cs) (VNum c e) len = VNull.
+Proof. exact substring_nonint. Qed.
+Theorem C08_named_eq_positional :
+  forall b args pn,
+  param_names b (length args) = Some pn -> named_domain b args ->
+  nam b (combine pn args) = pos b args.
+Proof. exact named_eq_positional. Qed.
+Theorem C08_named_order_irrelevant :
+  forall b ps ps', NoDup (map fst ps) -> Permutation ps ps' -> nam b ps = nam b ps'.
+Proof. exact named_order_irrelevant. Qed.
+Theorem C08_all_is_kleene_conjunction :
+  forall vs, b_all false vs = fold_right v_and (VBool true) vs.
+Proof. exact all_is_kleene_conjunction. Qed.
+Theorem C08_any_on_booleans :
+  forall vs, forallb is_bool vs = true -> b_any vs = fold_right v_or (VBool false) vs.
+Proof. exact any_on_booleans. Qed.
+Theorem C08_any_with_non_boolean :
+  forall vs, forallb is_bool vs = false -> b_any vs = VNull.
+Proof. exact any_with_non_boolean. Qed.
+Theorem C08_reverse_involutive :
+  forall xs, b_reverse (b_reverse (VList xs)) = VList xs.
+Proof. exact reverse_involutive. Qed.
+Theorem C08_reverse_nth :
+  forall xs i, (i < length xs)%nat ->
+  b_reverse (VList xs) = VList (rev xs) /\ nth i (rev xs) VNull = nth (length xs - S i) xs VNull.
+Proof. exact reverse_nth. Qed.
+Theorem C08_count :
+  forall xs, b_count (VList xs) = VNum (Z.of_nat (length xs)) 0.
+Proof. exact count_is_length. Qed.
+Theorem C08_concatenate :
+  forall ls, b_concatenate (map VList ls) = VList (concat ls).
+Proof. exact concatenate_spec. Qed.
+Theorem C08_append :
+  forall xs vs, b_append (VList xs) vs = VList (xs ++ vs).
+Proof. exact append_spec. Qed.
+Theorem C08_flatten_no_lists :
+  forall v, Forall (fun x => is_list x = false) (flatten_value v).
+Proof. exact flatten_no_lists. Qed.
+Theorem C08_flatten_idempotent :
+  forall xs, b_flatten (b_flatten (VList xs)) = b_flatten (VList xs).
+Proof. exact flatten_idempotent. Qed.
+Theorem C08_flatten_order :
+  forall xs ys, flatten_value (VList (xs ++ ys)) = flatten_value (VList xs) ++ flatten_value (VList ys).
+Proof. exact flatten_app. Qed.
+Theorem C08_index_of :
+  forall xs x v,
+  b_index_of (VList xs) x = VList (index_of_from 1 xs x) /\
+  positions_asc 1 (index_of_from 1 xs x) /\
+  (In v (index_of_from 1 xs x) <->
+   exists i, (i < length xs)%nat /\ v = VNum (1 + Z.of_nat i) 0 /\ teq (nth i xs VNull) x = Some true).
+Proof. exact index_of_spec. Qed.
+Theorem C08_list_contains :
+  forall xs x, b_list_contains (VList xs) x = VBool true <-> exists y, In y xs /\ teq y x = Some true.
+Proof. exact list_contains_spec. Qed.
+Theorem C08_distinct_values :
+  forall xs, exists res,
+  b_distinct_values (VList xs) = VList res /\ distinct_list res /\
+  (forall r, In r res -> In r xs) /\
+  (forall x, In x xs -> In x res \/ exists r, In r res /\ teq r x = Some true).
+Proof. exact distinct_values_spec. Qed.
+Theorem C08_union :
+  forall ls, exists res,
+  b_union (map VList ls) = VList res /\ distinct_list res /\
+  (forall r, In r res -> In r (concat ls)) /\
+  (forall x, In x (concat ls) -> In x res \/ exists r, In r res /\ teq r x = Some true).
+Proof. exact union_spec. Qed.
+Theorem C08_contains :
+  forall s m, b_contains (VStr s) (VStr m) = VBool true <-> exists a b, s = a ++ m ++ b.
+Proof. exact contains_spec. Qed.
+Theorem C08_starts_with :
+  forall s m, b_starts_with (VStr s) (VStr m) = VBool true <-> exists t, s = m ++ t.
+Proof. exact starts_with_spec. Qed.
+Theorem C08_ends_with :
+  forall s m, b_ends_with (VStr s) (VStr m) = VBool true <-> exists a, s = a ++ m.
+Proof. exact ends_with_spec. Qed.
+Theorem C08_substring_before_after :
+  forall s m,
+  (exists a b, s = a ++ m ++ b) ->
+  exists before after,
+    b_substring_before (VStr s) (VStr m) = VStr before /\ b_substring_after (VStr s) (VStr m) = VStr after /\
+    s = before ++ m ++ after /\
+    (forall j, (j < length before)%nat -> prefixb m (skipn j s) = false).
+Proof. exact substring_before_after_spec. Qed.
+Theorem C08_substring_before_after_no_match :
+  forall s m,
+  b_contains (VStr s) (VStr m) = VBool false ->
+  b_substring_before (VStr s) (VStr m) = VStr [] /\ b_substring_after (VStr s) (VStr m) = VStr [].
+Proof. exact substring_before_after_no_match. Qed.
+Theorem C08_string_length :
+  forall s, b_string_length (VStr s) = VNum (Z.of_nat (length s)) 0.
+Proof. exact string_length_spec. Qed.
+Theorem C08_sum :
+  forall n ns, b_sum (map vnum (n :: ns)) = vnum (fold_left nadd (n :: ns) (0, 0)).
+Proof. exact sum_spec. Qed.
+Theorem C08_mean :
+  forall n ns,
+  b_mean (map vnum (n :: ns)) = vnum (ndiv (fold_left nadd (n :: ns) (0, 0)) (Z.of_nat (length (n :: ns)), 0)).
+Proof. exact mean_spec. Qed.
+Theorem C08_median :
+  forall n ns,
+  let s := nsort (n :: ns) in let k := (length s / 2)%nat in
+  b_median (map vnum (n :: ns)) =
+  if Nat.even (length s) then vnum (ndiv (nadd (nth (k - 1) s (0, 0)) (nth k s (0, 0))) (2, 0)) else vnum (nth k s (0, 0)).
+Proof. exact median_spec. Qed.
+Theorem C08_sort_permutation :
+  forall l, Permutation (nsort l) l.
+Proof. exact nsort_perm. Qed.
+Theorem C08_sort_ascending :
+  forall l, ascending (nsort l).
+Proof. exact nsort_ascending. Qed.
+Theorem C08_aggregates_empty :
+  b_sum [] = VNull /\ b_mean [] = VNull /\ b_median [] = VNull /\ b_min [] = VNull /\ b_max false [] = VNull /\ b_mode [] = VList [].
+Proof. exact aggregates_empty. Qed.
+Theorem C08_aggregates_non_number :
+  forall f pre x post, In f [b_sum; b_mean; b_median; b_mode] ->
+  (match x with VNum _ _ => False | _ => True end) -> f (map vnum pre ++ x :: post) = VNull.
+Proof. exact aggregates_non_number. Qed.
+Theorem C08_max_numbers :
+  forall ns m, exists r,
+  max_num false m (map vnum ns) = vnum r /\ In r (m :: ns) /\
+  (forall x, In x (m :: ns) -> is_le (ncmp (fst x) (snd x) (fst r) (snd r)) = true).
+Proof. exact max_numbers_spec. Qed.
+Theorem C08_min_numbers :
+  forall ns m, exists r,
+  min_num m (map vnum ns) = vnum r /\ In r (m :: ns) /\
+  (forall x, In x (m :: ns) -> is_le (ncmp (fst r) (snd r) (fst x) (snd x)) = true).
+Proof. exact min_numbers_spec. Qed.
+Theorem C08_min_max_null_item :
+  forall m pre post,
+  max_num false m (map vnum pre ++ VNull :: post) = VNull /\ min_num m (map vnum pre ++ VNull :: post) = VNull.
+Proof. exact min_max_null_item. Qed.
+Theorem C08_get_value :
+  forall es k, b_get_value (VCtx es) (VStr k) = match lookup k es with Some v => v | None => VNull end.
+Proof. exact get_value_spec. Qed.
+Theorem C08_get_entries :
+  forall es, b_get_entries (VCtx es) = VList (map (fun e => VCtx [(KEY, VStr (fst e)); (VALUE, snd e)]) es).
+Proof. exact get_entries_spec. Qed.
+Theorem C08_not :
+  forall v, b_not v = match v with VBool b => VBool (negb b) | _ => VNull end.
+Proof. exact not_spec. Qed.
+Theorem C08_wrong_arity_null :
+  forall a1 a2 a3 a4 r,
+  pos Contains [a1; a2; a3] = Some VNull /\ pos Count [] = Some VNull /\ pos Count [a1; a2] = Some VNull /\
+  pos Sublist [a1] = Some VNull /\ pos Sublist (a1 :: a2 :: a3 :: a4 :: r) = Some VNull /\
+  pos Substring [a1] = Some VNull /\ pos Substring (a1 :: a2 :: a3 :: a4 :: r) = Some VNull /\
+  pos InsertBefore [a1; a2] = Some VNull /\ pos Remove [a1] = Some VNull /\ pos Not [] = Some VNull /\
+  pos All [] = Some VNull /\ pos Max [] = Some VNull /\ pos Append [a1] = Some VNull /\ pos Union [] = Some VNull.
+Proof. exact fixed_arity_null. Qed.
+Theorem C08_orig_scaled_position_refuted :
+  pos_orig Sublist [l123; VNum 10 (-1)] = Some VNull /\ pos Sublist [l123; VNum 10 (-1)] = Some l123 /\
+  pos_orig Substring [VStr [97; 98]%N; VNum 10 (-1)] = Some VNull /\ pos Substring [VStr [97; 98]%N; VNum 10 (-1)] = Some (VStr [97; 98]%N).
+Proof. exact orig_scaled_position_refuted. Qed.
+Theorem C08_orig_sublist_trap_refuted :
+  pos_orig Sublist [l123; VNum (-4) 0; VNum 1 0] = None /\ pos Sublist [l123; VNum (-4) 0; VNum 1 0] = Some VNull.
+Proof. exact orig_sublist_trap_refuted. Qed.
+Theorem C08_orig_max_min_null_refuted :
+  pos_orig Max [VList [VNum 1 0; VNull; VNum 3 0]] = Some (VNum 3 0) /\ pos_orig Min [VList [VNum 1 0; VNull; VNum 3 0]] = Some VNull.
+Proof. exact orig_max_min_null_refuted. Qed.
+Theorem C08_orig_all_order_refuted :
+  pos_orig All [VList [VNull; VBool false]] = Some VNull /\ pos_orig All [VList [VBool false; VNull]] = Some (VBool false).
+Proof. exact orig_all_order_refuted. Qed.
+Theorem C08_orig_named_mean_refuted :
+  let l := VList [VNum 0 0; VNum 2 0; VNum 100 0] in
+  nam_orig Mean [(PList, l)] = Some (VNum 2 0) /\
+  match pos_orig Mean [l] with Some (VNum c e) => ncmp c e 34 0 | _ => Lt end = Eq.
+Proof. exact orig_named_mean_refuted. Qed.
+
+Example C08_nonvacuous :
+  let l := VList [VNum 1 0; VNum 10 (-1); VNull; VList [VNum 2 0]; VNum 1 0] in
+  pos Sublist [l; VNum (-20) (-1); VNum 1 0] = Some (VList [VList [VNum 2 0]]) /\
+  pos IndexOf [l; VNum 100 (-2)] = Some (VList [VNum 1 0; VNum 2 0; VNum 5 0]) /\
+  pos DistinctValues [l] = Some (VList [VNum 1 0; VNull; VList [VNum 2 0]]) /\
+  pos Flatten [l] = Some (VList [VNum 1 0; VNum 10 (-1); VNull; VNum 2 0; VNum 1 0]) /\
+  nam Substring [(PLength, VNum 2 0); (PString, VStr [97; 128512; 98]%N); (PStartPosition, VNum (-2) 0)] = Some (VStr [128512; 98]%N) /\
+  match pos Mean [VNum 1 0; VNum 2 0] with Some (VNum c e) => ncmp c e 15 (-1) | _ => Lt end = Eq.
+Proof. exact nonvacuous. Qed.
+
+Print Assumptions C08_position_scale.
+Print Assumptions C08_sublist2.
+Print Assumptions C08_sublist2_non_integer.
+Print Assumptions C08_sublist3.
+Print Assumptions C08_remove.
+Print Assumptions C08_remove_non_integer.
+Print Assumptions C08_remove_at_length.
+Print Assumptions C08_remove_at_nth.
+Print Assumptions C08_insert_before.
+Print Assumptions C08_insert_at_length.
+Print Assumptions C08_insert_at_nth.
+Print Assumptions C08_substring2.
+Print Assumptions C08_substring3.
+Print Assumptions C08_substring_non_integer.
+Print Assumptions C08_named_eq_positional.
+Print Assumptions C08_named_order_irrelevant.
+Print Assumptions C08_all_is_kleene_conjunction.
+Print Assumptions C08_any_on_booleans.
+Print Assumptions C08_any_with_non_boolean.
+Print Assumptions C08_reverse_involutive.
+Print Assumptions C08_reverse_nth.
+Print Assumptions C08_count.
+Print Assumptions C08_concatenate.
+Print Assumptions C08_append.
+Print Assumptions C08_flatten_no_lists.
+Print Assumptions C08_flatten_idempotent.
+Print Assumptions C08_flatten_order.
+Print Assumptions C08_index_of.
+Print Assumptions C08_list_contains.
+Print Assumptions C08_distinct_values.
+Print Assumptions C08_union.
+Print Assumptions C08_contains.
+Print Assumptions C08_starts_with.
+Print Assumptions C08_ends_with.
+Print Assumptions C08_substring_before_after.
+Print Assumptions C08_substring_before_after_no_match.
+Print Assumptions C08_string_length.
+Print Assumptions C08_sum.
+Print Assumptions C08_mean.
+Print Assumptions C08_median.
+Print Assumptions C08_sort_permutation.
+Print Assumptions C08_sort_ascending.
+Print Assumptions C08_aggregates_empty.
+Print Assumptions C08_aggregates_non_number.
+Print Assumptions C08_max_numbers.
+Print Assumptions C08_min_numbers.
+Print Assumptions C08_min_max_null_item.
+Print Assumptions C08_get_value.
+Print Assumptions C08_get_entries.
+Print Assumptions C08_not.
+Print Assumptions C08_wrong_arity_null.
+Print Assumptions C08_orig_scaled_position_refuted.
+Print Assumptions C08_orig_sublist_trap_refuted.
+Print Assumptions C08_orig_max_min_null_refuted.
+Print Assumptions C08_orig_all_order_refuted.
+Print Assumptions C08_orig_named_mean_refuted.
 Print Assumptions C08_nonvacuous.
